@@ -161,12 +161,17 @@ inductive Outcome where
   | internalOrOff
   deriving DecidableEq, Repr, Inhabited
 
-/-- What `set_transit_compartments` reads of the model besides its feature vector. -/
+/-- What `set_transit_compartments(…, keep_depot=False)` reads of the model besides its feature vector
+    (two observable facts about parameters and statements). -/
 structure Ctx where
-  /-- a parameter `POP_MDT` is still defined once the lag time is removed (it is after transit
-      compartments, after SEQ-ZO-FO created from first-order/instantaneous absorption, or as a leftover of an
-      earlier `keep_depot=False`; it is not when the zero-order duration is `2*MAT`) -/
-  mdtDefined : Bool
+  /-- the statements define `MAT` (the depot rate is `1/MAT`) **and** a parameter `POP_MDT` is still there once the
+      lag time is removed (transit compartments, SEQ-ZO-FO created from first-order/instantaneous absorption, the
+      leftover of an earlier `keep_depot=False`): renaming MAT to MDT clashes -/
+  renameClash : Bool
+  /-- the statements do **not** define `MAT` (the model brings its own `KA`) and `remove_lag_time` removes a parameter
+      (the lag-time parameter is not shared with a zero-order duration): the stale statements used afterwards still
+      define the lag-time symbol whose parameter is gone -/
+  staleLagParam : Bool
   deriving DecidableEq, Repr, Inhabited
 
 /-- The part of `set_transit_compartments` after the `keep_depot` handling. `hadLag`: a lag time was
@@ -196,11 +201,18 @@ def setTransits (c : Ctx) (s : FV) (n : Nat) (keep : Bool) : Outcome :=
   let s := { s with lag := false }
   if !keep && s.depot then
     -- MAT is renamed to MDT: fails when POP_MDT is already there
-    if c.mdtDefined then .internal
+    if c.renameClash then .internal
+    -- without MAT nothing is renamed, and the stale statements still define the lag-time MDT whose parameter is gone
+    else if hadLag ∧ c.staleLagParam then .internal
     else
-      -- the depot is removed (with its lag time); its bioavailability is not transferred; the ODE system is re-read
+      -- the depot is removed; the ODE system is re-read
       if s.transits = 1 ∧ n = 1 then .off      -- TRANSIT1 -> CENTRAL is left: a depot by another name
-      else transitsTail { s with depot := false, bio := false } n false
+      else if s.transits = 0 then
+        -- the depot was the dosing compartment: its lag time goes with it, its bioavailability is not transferred
+        transitsTail { s with depot := false, bio := false } n false
+      else
+        -- dose, bioavailability (and the stale lag time) sit on TRANSIT1
+        transitsTail { s with depot := false } n hadLag
   else transitsTail s n hadLag
 
 def setAbs (s : FV) (a : Abs) : Outcome :=
@@ -341,10 +353,13 @@ def defectOf (c : Ctx) (r : Req) (s : FV) : Option DefectClass :=
   match r with
   | .transits n keep =>
     if !keep && s.depot then
-      if c.mdtDefined then some .nodepotRenameClash
+      if c.renameClash then some .nodepotRenameClash
+      else if s.lag ∧ c.staleLagParam then some .transitsStaleLag
       else if s.transits = 1 ∧ n = 1 then some .singleTransitNoDepot
-      else if s.bio ∧ ¬ (n = 1 ∧ s.zo = false ∧ s.transits = 0) then some .transitsDropBio
-      else defectTransitsTail { s with depot := false, bio := false, lag := false } n false
+      else if s.transits = 0 then
+        if s.bio ∧ ¬ (n = 1 ∧ s.zo = false) then some .transitsDropBio
+        else defectTransitsTail { s with depot := false, bio := false, lag := false } n false
+      else defectTransitsTail { s with depot := false, lag := false } n s.lag
     else defectTransitsTail s n s.lag
   | .abs .fo =>
     if s.abs = .seq then
